@@ -34,7 +34,7 @@ _SIG = [0.5, 2.0, 1.0, 0.25, 4.0, 1.0, 0.5, 2.0]
 
 def _el(sp, lst):
     n = S.flat_size(sp)
-    a = np.asarray((lst * 4)[:n])
+    a = np.resize(np.asarray(lst), n)      # cyclic repetition
     return S.from_flat(sp, a)
 
 
@@ -270,6 +270,21 @@ def configs(tier):
                     for sv in sig_vals:
                         cfgs.append({'kind': 'raw', 'name': name, 'space': sp, 'opt': o,
                                      'sigma_kind': sk, 'sigma': sv})
+    # the same factories on spaces above the size threshold where lincomb / the arithmetic
+    # switch to BLAS (the aliased patterns x.lincomb(a, x, b, y) of the proximals live there too)
+    for name in RAW:
+        kinds, opts, _, sigk = RAW[name]
+        if 'T' not in kinds:
+            continue
+        for sp in (['rn60k'] if not thorough else ['rn60k', 'ud60k', 'cn60k']):
+            if sp == 'cn60k' and name not in ('proximal_l1', 'proximal_l2', 'proximal_l2_squared',
+                                              'proximal_convex_conj_l1',
+                                              'proximal_convex_conj_l2_squared'):
+                continue
+            for o in opts:
+                for sk in (sigk if thorough else sigk[:1]):
+                    cfgs.append({'kind': 'raw', 'name': name, 'space': sp, 'opt': o,
+                                 'sigma_kind': sk, 'sigma': 0.5, 'big': 1})
     for name in WRAP:
         opts, _ = WRAP[name]
         for b in BASES:
@@ -341,7 +356,8 @@ def _site(cfg):
     k = cfg['kind']
     if k == 'raw':
         o = ','.join('%s=%s' % kv for kv in sorted(cfg['opt'].items()) if kv[0] != 'lam')
-        return '%s[%s,sigma=%s]' % (cfg['name'], o, cfg['sigma_kind'])
+        return '%s[%s,sigma=%s%s]' % (cfg['name'], o, cfg['sigma_kind'],
+                                      ',large' if cfg.get('big') else '')
     if k == 'wrap':
         o = ','.join('%s=%s' % kv for kv in sorted(cfg['opt'].items()))
         return '%s(%s)[%s]' % (cfg['name'], cfg['base'], o)
@@ -482,6 +498,14 @@ def _close(a, b, dt):
     return bool(np.all(np.abs(a[fin] - b[fin]) <= tol * scale))
 
 
+def _L(a):
+    """Array for a message: complete when small, first entries otherwise."""
+    a = np.asarray(a)
+    if a.size <= 16:
+        return a.tolist()
+    return '%s ... (%d entries)' % (a.ravel()[:8].tolist(), a.size)
+
+
 def run(cfg):
     if cfg['kind'] == 'ast-scan':
         from mc.engine import REPO
@@ -508,7 +532,13 @@ def run(cfg):
     skipped = 0
     sigs = set()
     first = {}
-    for z in S.points(n, alph):
+    if n > 8:
+        # large spaces: two cyclic patterns over the alphabet (the size regime matters, not the
+        # values)
+        pts = [np.resize(np.array(V), n), np.resize(1.5 * np.array(V[::-1]), n)]
+    else:
+        pts = S.points(n, alph)
+    for z in pts:
         if S.is_complex(sp):
             z = z * (1 + 0.5j)
         x = S.from_flat(sp, z)
@@ -521,7 +551,7 @@ def run(cfg):
             skipped += 1
             continue
         if not np.array_equal(S.to_flat(x), x0):
-            first.setdefault('input_modified', 'x=%s' % z.tolist())
+            first.setdefault('input_modified', 'x=%s' % _L(z))
         if ref.dtype.kind in 'fc' and not np.all(np.isfinite(ref)):
             skipped += 1        # x is a singular point of this operator (outside its domain)
             continue
@@ -531,17 +561,40 @@ def run(cfg):
             r = op(y, out=y)
             got = S.to_flat(y)
             if r is not y:
-                first.setdefault('returned_object_is_not_out', 'aliased x=%s' % z.tolist())
+                first.setdefault('returned_object_is_not_out', 'aliased x=%s' % _L(z))
             if not _close(got, ref, dt):
                 first.setdefault('aliased_call_differs',
                                  'x=%s prox(x)=%s but prox(x,out=x) left %s'
-                                 % (z.tolist(), ref.tolist(), got.tolist()))
+                                 % (_L(z), _L(ref), _L(got)))
         except Exception as e:
             first.setdefault('aliased_call_raises:' + type(e).__name__,
-                             'x=%s: %r' % (z.tolist(), e))
+                             'x=%s: %r' % (_L(z), e))
         evals += 2
         sigs.add(str(np.sign(ref - x0.real).astype(int).tolist()) if not S.is_complex(sp)
                  else 'c')
+    # history: the caller updates its data element in place (a new measurement in the same buffer)
+    # and uses the SAME operator object again - the aliased call must still agree with the plain
+    # call (an operator that cached something derived from g in one of the two paths would not)
+    mod = [g for g in _DATA_ELEMS if hasattr(g, 'space') and g.space == sp]
+    if mod and evals:
+        try:
+            for g in mod:
+                g *= 2
+            z = np.asarray(pts[0] if n > 8 else next(iter(S.points(n, alph))))
+            if S.is_complex(sp):
+                z = z * (1 + 0.5j)
+            x = S.from_flat(sp, z)
+            ref = S.to_flat(op(x))
+            if not (ref.dtype.kind in 'fc' and not np.all(np.isfinite(ref))):
+                y = x.copy()
+                op(y, out=y)
+                evals += 2
+                if not _close(S.to_flat(y), ref, dt):
+                    first.setdefault('aliased_call_differs_after_data_element_was_modified',
+                                     'after g *= 2 (in place) on the data element: x=%s prox(x)=%s but '
+                                     'prox(x,out=x) left %s' % (_L(z), _L(ref), _L(S.to_flat(y))))
+        except Exception as e:
+            first.setdefault('history_raises:' + type(e).__name__, repr(e)[:200])
     # three-way alias: the evaluation point IS the data / translation element given to the factory
     # (done last: it overwrites that element)
     for g in list(_DATA_ELEMS):
@@ -561,7 +614,7 @@ def run(cfg):
             if not _close(got, ref, dt):
                 first.setdefault('aliased_call_at_data_element_differs',
                                  'prox(g) = %s but prox(g, out=g) with g the data/translation '
-                                 'element itself left %s' % (ref.tolist(), got.tolist()))
+                                 'element itself left %s' % (_L(ref), _L(got)))
         except Exception as e:
             first.setdefault('aliased_call_raises:' + type(e).__name__,
                              'x is the data element: %r' % (e,))
